@@ -151,6 +151,9 @@ def run(F, rep, tier):
     r1 = rep.rule("R03.1", "hit-policy dispatch: every policy/aggregator has its own arm and reaches a method with the prescribed collection order, result shape and default-output path")
     r2 = rep.rule("R03.2", "hitPolicy / aggregation attribute strings and text markers denote the variants the specification assigns")
     r3 = rep.rule("R03.3", "a rule matches iff all its input entries are true: the match flag starts true and is only ever cleared inside the entry loop")
+    # premise (C09): an input entry is a unary test; `<= c`, `not(<= c)` ... must compare with the operator they are written with
+    from props import c09
+    c09.unary_dispatch_rule(F, rep)
     # ---------------- R03.1
     bld = F.hir.get(DT + "build_decision_table_evaluator")
     if bld is None:
